@@ -20,6 +20,7 @@
 package main
 
 import (
+	"flag"
 	"fmt"
 	"math/rand"
 	"os"
@@ -105,6 +106,10 @@ type spec struct {
 	// C
 	CpsMode  string        `json:"cps_mode,omitempty"` // truth|collude-short
 	Arrivals []arrivalSpec `json:"arrivals,omitempty"`
+	// L (loop.go): the script of rounds and environment events, the peers
+	// connected at the start (nil: all)
+	Steps []loopStep `json:"steps,omitempty"`
+	Conn  []int64    `json:"conn,omitempty"`
 
 	Obs string `json:"obs,omitempty"`
 	Sig string `json:"sig,omitempty"`
@@ -1314,7 +1319,29 @@ func runSpec(sp *spec) (res result) {
 }
 
 func main() {
+	loopFlag := flag.Bool("loop", false, "run family L (the cfHandler loop) only")
 	a := c.ParseArgs()
+	if a.Replay != "" {
+		var sp spec
+		var wrap struct {
+			History *spec `json:"history"`
+		}
+		c.ReadJSON(a.Replay, &wrap)
+		if wrap.History != nil {
+			sp = *wrap.History
+		} else {
+			c.ReadJSON(a.Replay, &sp)
+		}
+		if sp.Family == "L" {
+			sp.Obs, sp.Sig = "", ""
+			mainLoop(a, &sp)
+			return
+		}
+	}
+	if *loopFlag {
+		mainLoop(a, nil)
+		return
+	}
 	rep := c.NewReport("C03", a)
 	base := filepath.Join(a.Out, "stores")
 	os.RemoveAll(base)
@@ -1345,8 +1372,9 @@ func main() {
 		files, _ := filepath.Glob("../corpus/C03/*.json")
 		sort.Strings(files)
 		for _, f := range files {
-			if strings.HasPrefix(filepath.Base(f), "f18-") {
-				// schedules of the interleaving harness (cmd/c03conc)
+			if strings.HasPrefix(filepath.Base(f), "f18-") || strings.HasPrefix(filepath.Base(f), "loop-") {
+				// schedules of the interleaving harness (cmd/c03conc),
+				// scripts of family L (c03 -loop)
 				continue
 			}
 			var sp spec
